@@ -277,7 +277,7 @@ class Ctx:
 
     def obligate(self, name, goal, **info):
         """Record a proof obligation `pc => goal` generated in the middle of an execution."""
-        self.obligations.append((name, list(self.pc), goal, info))
+        self.obligations.append((name, list(self.pc) + list(getattr(self, "guards", [])), goal, info))
 
     def event(self, *ev):
         self.events.append(ev)
@@ -994,6 +994,18 @@ class Interp:
 
     # ------------------------------------------------------------------ operators
     def binop(self, op, l, r, inplace=False):
+        if inplace and op == "|":
+            from .symcoll import SDict, SSet, SColl
+            if isinstance(l, SDict) and isinstance(r, (SDict, dict)):
+                if isinstance(r, dict):
+                    if r:
+                        raise Unsupported("symbolic dict |= concrete non-empty dict")
+                    return l
+                return l.inplace_or(self, r)
+            if isinstance(l, SSet) and isinstance(r, SColl):
+                l.arr = l.union_arr(r)
+                l.note(self)
+                return l
         # symbolic ints
         if isinstance(l, (SInt, SBool)) or isinstance(r, (SInt, SBool)):
             if _intlike(l) and _intlike(r):
@@ -1302,8 +1314,12 @@ class Interp:
 
     # ------------------------------------------------------------------ comprehensions
     def e_ListComp(self, n, fr):
+        from .symcoll import try_symbolic_listcomp
+        r = try_symbolic_listcomp(self, n, fr)
+        if r is not None and r[0] == "sym":
+            return r[1]
         out = []
-        self.comp(n.generators, 0, fr, lambda f: out.append(self.eval(n.elt, f)))
+        self.comp(n.generators, 0, fr, lambda f: out.append(self.eval(n.elt, f)), pre=r)
         return out
 
     def e_SetComp(self, n, fr):
@@ -1323,17 +1339,17 @@ class Interp:
     def e_DictComp(self, n, fr):
         from .symcoll import try_symbolic_dictcomp
         sd = try_symbolic_dictcomp(self, n, fr)
-        if sd is not None:
-            return sd
+        if sd is not None and sd[0] == "sym":
+            return sd[1]
         out = {}
 
         def add(f):
             k = self.eval(n.key, f)
             out[self.hashable(k)] = self.eval(n.value, f)
-        self.comp(n.generators, 0, fr, add)
+        self.comp(n.generators, 0, fr, add, pre=sd)
         return out
 
-    def comp(self, gens, i, fr, emit):
+    def comp(self, gens, i, fr, emit, pre=None):
         if i == 0:
             inner = Frame(fr.module, fr.func, fr)
             inner.globals_decl = fr.globals_decl
@@ -1342,7 +1358,8 @@ class Interp:
             emit(fr)
             return
         g = gens[i]
-        for x in self.iterate(self.eval(g.iter, fr)):
+        src = pre[1] if (i == 0 and pre is not None and pre[0] == "concrete") else self.eval(g.iter, fr)
+        for x in self.iterate(src):
             self.assign(g.target, x, fr)
             if all(self.truth(self.eval(c, fr)) for c in g.ifs):
                 self.comp(gens, i + 1, fr, emit)
